@@ -83,7 +83,7 @@ pub fn c09_c10(d: &Digest, s: usize, out: &mut Vec<Violation>) {
             }
         }
         // ---- C09 (a): notified while registered
-        if !tainted && sd.model.policy == Policy::Block {
+        if !tainted {
             for inst in &sd.insts {
                 if d.notify_exp(inst) != NotifyExp::Must {
                     continue;
@@ -468,6 +468,22 @@ pub fn c16(d: &Digest, s: usize, out: &mut Vec<Violation>) {
                 _ => None,
             })
             .collect();
+        // the callback is made from inside the notification of the action that caused it: on the
+        // store's reducer thread, before that thread goes back to its queue (shared or not)
+        if let Some(rt) = sd.rtid {
+            let pos = d.inst_positions(s);
+            for (i, e) in d.ev.iter().enumerate() {
+                let K::SelCb { sub: sb, act, .. } = &e.k else { continue };
+                if sb != sub || d.act_store.get(act) != Some(&s) {
+                    continue;
+                }
+                let bound = pos.get(act).map(|p| d.inst_end_bound(s, &sd.insts[p[0]])).unwrap_or(usize::MAX);
+                if e.tid != rt || i > bound {
+                    v(out, "C16", "callback-outside-its-notification", format!("store {s}: selector {sub} delivered the value of action {act} {}", if e.tid != rt { "on a thread that is not this store's reducer thread" } else { "after the reducer had gone on to its next action" }));
+                    break;
+                }
+            }
+        }
         // local invariants hold for shared and unshared selectors alike
         if !d.prog.subs[*sub].shared {
             for w in cbs.windows(2) {
